@@ -3,6 +3,7 @@
    walks the model, the operation labels of each behaviour are printed as one REPLAY line. *)
 EXTENDS FatImpl
 CntUnknown == {-1}
+CntExact == {3}          \* N = 4: the root and three free clusters
 CONSTANT K              \* operations per behaviour
 VARIABLE hist
 SimInit == Init /\ hist = <<>>
